@@ -234,6 +234,20 @@ def run_variant(ck, crate, setup, label, mk, designated, prog, known_open=False)
         if p.ok:
             nok += 1
             ck.oblige('C16.%s.auth' % tag, p, caller != want, 'accepted only from the designated caller (%s)' % designated)
+            if '.opts' in label:
+                # ownership transfer sent together with any subset of the other options: the stored owner is the one that was sent
+                # (where the contract keeps its owner as a field `owner` / `new_owner` of the stored config)
+                cfg = p.world.storage.get('config') if hasattr(p.world.storage, 'get') else None
+                try:
+                    names = [f[0] for f in prog.adts[cfg.name]['variants'][0]['fields']]
+                    own = cfg.fields[names.index('owner')] if 'owner' in names else None
+                except Exception: own = None
+                hv = [d for d in ('has_owner', 'has_new_owner') if any(d == str(x) for c_ in p.conds for x in ([c_] + list(c_.children())) if z3.is_bool(x))]
+                if own is not None and hv:
+                    o = deref(own); o = o.fields[0] if isinstance(o, Agg) and o.fields else o
+                    if isinstance(o, Str) and o.s is not None:
+                        ck.oblige('C16.%s.transfer.stored' % tag, p, z3.And(z3.Bool(hv[0]), o.s != 'mallory'),
+                                  'when the accepted update names a new owner (alone or with any other options) the stored owner is that address')
         elif p.kind in ('unsupported', 'bound'):
             r = ck.oblige('C16.%s.auth.partial' % tag, p, caller != want, 'a path whose tail is not modelled is only reachable by the designated caller (%s)' % p.msg[:60])
             if r == 'unsat': nok += 1
